@@ -27,6 +27,14 @@ Extraction rules (DESIGN.md §5-C16)
     per call site when that field is a compile-time constant of the caller's local struct at the
     call (straight-line code only; fields a callback writes through its pointer are never used):
     variant functions `cb[field=v]`.
+  * From rtrlib/rtr/packets.c exactly the functions that themselves contain a pthread_rwlock call are translated
+    as IR functions too (`rtr_swap_tables`: the combined critical section of a full reload: write locks of both
+    live tables, the two `*_swap_locked` workers inside).  There a table is a table parameter or, through a
+    `struct rtr_socket *` parameter s, the pseudo parameter `s.pfx_table` / `s.spki_table`.
+  * A non-static flat helper that WRITES table state without taking the lock (`pfx_table_swap_locked`,
+    `spki_table_swap_locked`) contributes its writes at each translated call site, where the checker demands the
+    write lock of the table; calls of such a helper from code that is not translated are listed in
+    `unlockedWriterCalls` (C06 demands the empty list).
   * Anything not recognised becomes `unknown`, which the checker rejects.
 The output is rewritten only when its content changes.
 """
@@ -47,6 +55,7 @@ RELOAD_FILE = "rtrlib/rtr/packets.c"
 RELOAD_FN = "rtr_sync_receive_and_store_pdus"
 NAMESPACE = "Rtr.Generated.Locks"
 
+SOCKET_RE = re.compile(r"^(const )?struct rtr_socket \*( const)?$")
 TABLE_RE = re.compile(r"^(const )?struct (pfx_table|spki_table) \*( const)?$")
 PARTS = ["ipv4", "ipv6", "nodes", "hashtable", "list", "entries"]
 SLOT_FIELDS = {"ipv4": "ipv4", "ipv6": "ipv6", "hashtable": "hashtable", "list": "list"}
@@ -88,7 +97,18 @@ def include_flags():
     return ["-I" + REPO, "-I" + os.path.join(REPO, "third-party"), "-I" + gen]
 
 
+_AST_CACHE = {}
+
+
 def load_ast(rel):
+    key = (REPO, rel)
+    if key not in _AST_CACHE:
+        _AST_CACHE.clear()       # one big AST (packets.c) at a time
+        _AST_CACHE[key] = load_ast_uncached(rel)
+    return _AST_CACHE[key]
+
+
+def load_ast_uncached(rel):
     src = os.path.join(REPO, rel)
     cmd = ["clang-14", "-fsyntax-only", "-Xclang", "-ast-dump=json", "-std=gnu99", "-w", "-D_GNU_SOURCE", "-UNDEBUG"] + \
         include_flags() + [src]
@@ -231,6 +251,9 @@ class Ctx:
         self.cb_spec_fields = {}      # callback name -> boolean fields of its data struct it branches on
         self.cb_written_fields = set()  # fields some callback writes through its data pointer
         self.variant_of = {}          # variant name -> (base name, spec)
+        self.reload_ir = []           # functions of RELOAD_FILE that contain a lock call (translated as IR functions)
+        self.unlocked_writers = []    # non-static flat helpers that write table state without taking the lock
+        self.unlocked_writer_calls = []   # (file, caller, callee): calls of those from code that is not translated
 
     def variant(self, g, spec):
         vname = "%s[%s]" % (g, ",".join("%s=%d" % kv for kv in sorted(spec.items())))
@@ -296,6 +319,9 @@ class FnTranslator:
         if is_fnptr_param(p):
             return {("fnparam", n)}
         if t.replace("const ", "").strip() in ("void *",):
+            return {("cbdata", n)}
+        if SOCKET_RE.match(t) and not self.flat:
+            # s->pfx_table / s->spki_table: pseudo table parameters `s.pfx_table`, `s.spki_table`
             return {("cbdata", n)}
         if self.flat and "*" in t:
             return {("param", self.pidx[n])}
@@ -1075,9 +1101,26 @@ def extract():
             ctx.defs[n["name"]] = n
             ctx.file[n["name"]] = rel
             order.append(n["name"])
+    lockish = set(LOCK_CALLS) | LIFECYCLE_CALLS
+    # the synchronisation code: exactly the functions that themselves call a lock function (the combined swap section)
+    rtu = load_ast(RELOAD_FILE)
+    rmain = os.path.join(REPO, RELOAD_FILE)
+    reload_decls = {}
+    for n in rtu.get("inner", []):
+        if n.get("kind") != "FunctionDecl" or file_of(n) != rmain:
+            continue
+        if not any(c.get("kind") == "CompoundStmt" for c in n.get("inner", [])):
+            continue
+        reload_decls[n["name"]] = n
+        if n["name"] not in ctx.defs and contains_call(n, lockish):
+            if n.get("storageClass") == "static":
+                ctx.static.add(n["name"])
+            ctx.defs[n["name"]] = n
+            ctx.file[n["name"]] = RELOAD_FILE
+            ctx.reload_ir.append(n["name"])
+            order.append(n["name"])
     # IR functions: contain a lock call, or call an IR function
     ir = set()
-    lockish = set(LOCK_CALLS) | LIFECYCLE_CALLS
     changed = True
     while changed:
         changed = False
@@ -1136,11 +1179,41 @@ def extract():
     # stable order: source order, variants right after their base function
     base_order = {n: i for i, n in enumerate(order)}
     ctx.ir_fns.sort(key=lambda n: (base_order.get(ctx.variant_of.get(n, (n,))[0], 0), n))
+    # lock-free writers: exported helpers that write table state and leave the locking to the caller.  At translated
+    # call sites the checker demands the write lock; every other call site is reported.
+    ctx.unlocked_writers = sorted(n for n in flat if n not in ctx.static and
+                                  any(k == "wr" and loc[0] == "T" for (k, loc) in ctx.summaries[n].acc))
+    if ctx.unlocked_writers:
+        names = set(ctx.unlocked_writers)
+        for fname, decl in sorted(reload_decls.items()):
+            if fname not in ir and contains_call(decl, names):
+                for w in ctx.unlocked_writers:
+                    if contains_call(decl, {w}):
+                        ctx.unlocked_writer_calls.append((RELOAD_FILE, fname, w))
+        pat = re.compile(r"\b(%s)\s*\(" % "|".join(re.escape(w) for w in ctx.unlocked_writers))
+        skip = set(FILES) | {RELOAD_FILE}
+        for root, _dirs, files in sorted(os.walk(os.path.join(REPO, "rtrlib"))):
+            for fn in sorted(files):
+                rel = os.path.relpath(os.path.join(root, fn), REPO)
+                if not fn.endswith(".c") or rel in skip:
+                    continue
+                try:
+                    text = open(os.path.join(root, fn), errors="replace").read()
+                except OSError:
+                    continue
+                for m in sorted(set(pat.findall(text))):
+                    ctx.unlocked_writer_calls.append((rel, "?", m))
     return ctx
 
 
-def reload_calls():
+def reload_calls(ctx=None):
+    """table calls of RELOAD_FN in source order: (name, classes of the table arguments, line).  A call of a translated
+    function of RELOAD_FILE (ctx.reload_ir) is listed with the sorted set of classes of ITS tables; ctx.reload_ir_calls gets
+    (name, class_kind per table of the callee in IR order), e.g. ["shadow_pfx", "shadow_spki", "live_pfx", "live_spki"]."""
     tu = load_ast(RELOAD_FILE)
+    reload_ir = set(ctx.reload_ir) if ctx is not None else set()
+    if ctx is not None:
+        ctx.reload_ir_calls = []
     fn = None
     for n in tu.get("inner", []):
         if n.get("kind") == "FunctionDecl" and n.get("name") == RELOAD_FN and \
@@ -1164,6 +1237,31 @@ def reload_calls():
                 return "update"
         return None
 
+    def is_own_socket(a):
+        """the socket parameter of RELOAD_FN itself (its tables are the live tables)"""
+        while a.get("kind") in ("ImplicitCastExpr", "ParenExpr", "CStyleCastExpr"):
+            a = a["inner"][0]
+        rd = a.get("referencedDecl", {}) if a.get("kind") == "DeclRefExpr" else {}
+        return rd.get("kind") == "ParmVarDecl" and bool(SOCKET_RE.match(rd.get("type", {}).get("qualType", "")))
+
+    def ir_call_classes(g, args):
+        cparams = [c for c in ctx.defs[g].get("inner", []) if c.get("kind") == "ParmVarDecl"]
+        res = []
+        for t in ctx.fn_tables.get(g, []):
+            base, _, field = t.partition(".")
+            pi = [i for i, p in enumerate(cparams) if p["name"] == base]
+            arg = args[pi[0]] if pi and pi[0] < len(args) else None
+            if arg is None:
+                res.append("?")
+            elif field:
+                kind = {"pfx_table": "pfx", "spki_table": "spki"}.get(field, "?")
+                res.append(("live_" if is_own_socket(arg) else "?_") + kind)
+            else:
+                m = TABLE_RE.match(qtype(cparams[pi[0]]))
+                kind = {"pfx_table": "pfx", "spki_table": "spki"}.get(m.group(2) if m else "", "?")
+                res.append("%s_%s" % (classify(arg) or "?", kind))
+        return res
+
     def walk(n):
         if not isinstance(n, dict):
             return
@@ -1172,7 +1270,11 @@ def reload_calls():
             while c.get("kind") in ("ImplicitCastExpr", "ParenExpr"):
                 c = c["inner"][0]
             nm = c.get("referencedDecl", {}).get("name") if c.get("kind") == "DeclRefExpr" else None
-            if nm and pat.match(nm):
+            if nm and nm in reload_ir:
+                per_table = ir_call_classes(nm, n["inner"][1:])
+                ctx.reload_ir_calls.append((nm, per_table))
+                out.append((nm, sorted({x.split("_")[0] for x in per_table}), line_of(n)))
+            elif nm and pat.match(nm):
                 cls = [classify(a) for a in n["inner"][1:]]
                 out.append((nm, [c for c in cls if c], line_of(n)))
         for c in n.get("inner", []):
@@ -1300,7 +1402,7 @@ def emit_lean(ctx, rcalls):
                                                   "," if i < len(ctx.ir_fns) - 1 else ""))
     L.append("]")
     L.append("")
-    callbacks = [n for n in ctx.ir_fns if n in ctx.static]
+    callbacks = [n for n in ctx.ir_fns if n in ctx.static and n not in ctx.reload_ir]
     lifecycle = [n for n in ctx.ir_fns if n in ctx.lifecycle]
     public = [n for n in ctx.ir_fns if n not in ctx.static and n not in ctx.lifecycle]
     L.append("/-- the table API: every non-static function that takes part in locking, except the lifecycle")
@@ -1308,6 +1410,14 @@ def emit_lean(ctx, rcalls):
     L.append("def publicFns : List Nat := [%s]" % ", ".join("f_" + lean_ident(n) for n in public))
     L.append("def lifecycleFns : List Nat := [%s]" % ", ".join("f_" + lean_ident(n) for n in lifecycle))
     L.append("def callbackFns : List Nat := [%s]" % ", ".join("f_" + lean_ident(n) for n in callbacks))
+    L.append("/-- functions of %s that take table locks themselves -/" % RELOAD_FILE)
+    L.append("def reloadFns : List Nat := [%s]" % ", ".join("f_" + lean_ident(n) for n in ctx.ir_fns if n in ctx.reload_ir))
+    L.append("")
+    L.append("/-- exported helpers that write table state and leave the locking to their caller -/")
+    L.append("def unlockedWriters : List String := [%s]" % ", ".join('"%s"' % n for n in ctx.unlocked_writers))
+    L.append("/-- (file, calling function, helper): calls of those helpers from code that is NOT translated into this IR -/")
+    L.append("def unlockedWriterCalls : List (String × String × String) := [%s]" % ", ".join(
+        '("%s", "%s", "%s")' % c for c in ctx.unlocked_writer_calls))
     L.append("")
     L.append("/-- table calls of `%s` (%s) in source order, with the table arguments classified" % (RELOAD_FN, RELOAD_FILE))
     L.append("    live = `rtr_socket->pfx_table|spki_table`, shadow = `*_shadow_table`, update = `*_update_table` -/")
@@ -1316,6 +1426,11 @@ def emit_lean(ctx, rcalls):
     for i, (nm, cls, line) in enumerate(rc):
         L.append("  (\"%s\", [%s])%s  -- line %d" % (nm, ", ".join('"%s"' % c for c in cls), "," if i < len(rc) - 1 else "", line))
     L.append("]")
+    L.append("")
+    L.append("/-- calls of `reloadFns` members in `%s`: per table of the callee (in the order of its IR table list) what the" % RELOAD_FN)
+    L.append("    caller passes: live|shadow|update _ pfx|spki -/")
+    L.append("def reloadIrCalls : List (String × List String) := [%s]" % ", ".join(
+        '("%s", [%s])' % (nm, ", ".join('"%s"' % x for x in cls)) for nm, cls in getattr(ctx, "reload_ir_calls", [])))
     L.append("")
     L.append("end " + NAMESPACE)
     return "\n".join(L) + "\n"
@@ -1328,7 +1443,7 @@ def generate(repo, out_path, namespace="Rtr.Generated.Locks", info_path=None):
     REPO, NAMESPACE = repo, namespace
     try:
         ctx = extract()
-        rcalls = reload_calls()
+        rcalls = reload_calls(ctx)
         text = emit_lean(ctx, rcalls)
     finally:
         REPO, NAMESPACE = saved
@@ -1347,6 +1462,8 @@ def generate(repo, out_path, namespace="Rtr.Generated.Locks", info_path=None):
         "helpers": {n: {"acc": sorted([k, list(map(str, l))] for k, l in s.acc), "cbs": sorted(s.cbs),
                         "unknown": sorted(s.unknown)} for n, s in ctx.summaries.items()},
         "reloadCalls": rcalls, "changed": changed, "repo": repo,
+        "reloadFns": list(ctx.reload_ir), "reloadIrCalls": getattr(ctx, "reload_ir_calls", []),
+        "unlockedWriters": ctx.unlocked_writers, "unlockedWriterCalls": ctx.unlocked_writer_calls,
     }
     if info_path:
         os.makedirs(os.path.dirname(info_path), exist_ok=True)
